@@ -30,6 +30,7 @@ func checkC14(r *Report, p *Program) {
 	handedMapsFilled(r, p, "R14.8")
 	parentSelectorTable(r, p, "R14.10")
 	discoveryDefaults(r, p, "R14.11")
+	tombstonesAreValues(r, p, "R14.12")
 	relatedNotifyTable(r, p, "R14.9")
 }
 
